@@ -1775,8 +1775,17 @@ func (env *LEnv) call(ctx context.Context, fun *LVal, args *LVal) *LVal {
 		if val.Type == LMarkTerminal {
 			env.Runtime.Stack.Top().Terminal = true
 			termEnv := val.Native.(*LEnv)
+			// Bridged for the terminal expression only, like the builtin
+			// above: termEnv is often a long-lived environment (for if,
+			// progn, cond ... it is the caller's own, possibly the root),
+			// and a context left on it outlives the evaluation -- once the
+			// host cancels it, every later context-less Eval/Load on that
+			// environment fails with context-cancelled.
+			prevTerm := termEnv.evalCtx
 			termEnv.evalCtx = ctx
-			return termEnv.eval(ctx, val.Cells[0])
+			r := termEnv.eval(ctx, val.Cells[0])
+			termEnv.evalCtx = prevTerm
+			return r
 		}
 		return val
 	}
